@@ -90,7 +90,7 @@ pub fn check_packet(x: &[u8]) -> Result<String, (String, String)> {
             Err(p) => return Err((format!("uncompress_with_previous_offset:panic:{}", panic_site(&p)), p)),
         }
     }
-    let mut types: Vec<u16> = d.msg.all_recs().map(|r| r.rtype).collect();
+    let mut types: Vec<u16> = d.msg.all_recs().map(|r| type_bucket(r.rtype)).collect();
     types.sort();
     types.dedup();
     let optpos = match d.msg.ar.iter().position(|r| r.rtype == T_OPT) {
@@ -164,6 +164,12 @@ fn run(ctx: &mut Ctx, rep: &mut Report) {
         for s in ALL_STRATEGIES.iter() {
             let x = encode(m, *s);
             one(ctx, rep, &x, "L3");
+        }
+    });
+    all_types_packets(false, |i, p| {
+        let (ctx, rep) = unsafe { (&mut *ctxp, &mut *repp) };
+        if ctx.mine(i) {
+            one(ctx, rep, p, "types");
         }
     });
     accepted_low_level(ctx.tier.pick(0, 1), |i, p| {
